@@ -41,7 +41,21 @@ func init() {
 			panic(stepsExceeded{})
 		}
 	}
+	hookFn = &f
 	jsonschema.VerifHook.Store(&f)
+}
+
+var hookFn *func(string)
+
+// SetHookEnabled installs or removes the harness's hook function altogether. With the hook removed the
+// library runs without ANY harness synchronisation: every atomic counter in a hook creates happens-before
+// edges between goroutines, which hides data races from the race detector (found with seeded/C13).
+func SetHookEnabled(on bool) {
+	if on {
+		jsonschema.VerifHook.Store(hookFn)
+	} else {
+		jsonschema.VerifHook.Store(nil)
+	}
 }
 
 func resetSteps()           { stepCount.Store(0) }
